@@ -291,6 +291,27 @@ def hostile_inputs(ctx, n: int) -> list[bytes]:
                                        max_prefix_table_size=r.choice([0, 2 ** 32 - 1, 10 ** 8]), max_datatype_table_size=r.choice([0, 2 ** 32 - 1]), version=1)
             fr = jelly.RdfStreamFrame(rows=[jelly.RdfStreamRow(options=o)]).SerializeToString()
             out.append(vi(len(fr)) + fr)
+        elif k == 4 and i % 16 == 4:
+            # lookup entries / references with ids far beyond the declared (small) table
+            o = jelly.RdfStreamOptions(physical_type=1, max_name_table_size=r.choice([8, 16, 4096]), max_prefix_table_size=r.choice([0, 8]),
+                                       max_datatype_table_size=r.choice([0, 8]), version=1)
+            big = r.choice([4097, 10 ** 6, 10 ** 8, 2 ** 31 - 1, 2 ** 32 - 1])
+            which = r.choice(["name", "prefix", "datatype", "ref"])
+            rows = [jelly.RdfStreamRow(options=o)]
+            if which == "name":
+                rows.append(jelly.RdfStreamRow(name=jelly.RdfNameEntry(id=big, value="n")))
+            elif which == "prefix":
+                rows.append(jelly.RdfStreamRow(prefix=jelly.RdfPrefixEntry(id=big, value="p")))
+            elif which == "datatype":
+                rows.append(jelly.RdfStreamRow(datatype=jelly.RdfDatatypeEntry(id=big, value="d")))
+            rows.append(jelly.RdfStreamRow(name=jelly.RdfNameEntry(id=1, value="x")))
+            t = jelly.RdfTriple()
+            t.s_iri.name_id = big if which == "ref" else 1
+            t.p_iri.name_id = 1
+            t.o_bnode = "b"
+            rows.append(jelly.RdfStreamRow(triple=t))
+            fr = jelly.RdfStreamFrame(rows=rows).SerializeToString()
+            out.append(vi(len(fr)) + fr)
         elif k == 4:
             # huge declared frame / field lengths
             out.append(vi(r.choice([2 ** 31, 2 ** 40, 2 ** 63 - 1, 10 ** 9])) + b"\x0a\x02\x48\x08")
@@ -349,6 +370,7 @@ def c17(ctx):
         out.append({"family": "PA", "mode": "hostile", "bytes": hx(inputs[first]) if first is not None else "x", "corresponds": True, "impl": [rc, len(done)], "model": [],
                     "property_violation": {"what": f"the parsing subprocess did not survive input {first} (exit {rc}): hang, crash or memory balloon"}, "signature": {}})
     cmds, idx = [], []
+    prev_rss = min([x["rss_mb"] for x in lines] or [0])
     for i, b in enumerate(inputs):
         x = done.get(i)
         if not x:
@@ -357,9 +379,13 @@ def c17(ctx):
         if x["max_s"] > 5.0:
             out.append({"family": "PA", "mode": "hostile", "bytes": hx(b), "corresponds": True, "impl": x, "model": [],
                         "property_violation": {"what": f"parsing took {x['max_s']:.1f}s"}, "signature": {}})
-        if x["rss_mb"] > 600:
+        if any(v in ("err:MemoryError", "hang") for v in x["outcomes"].values()):
+            out.append({"family": "PA", "mode": "hostile", "bytes": hx(b), "corresponds": True, "impl": x, "model": [],
+                        "property_violation": {"what": f"a {len(b)}-byte input exhausted memory or time: {x['outcomes']}"}, "signature": {}})
+        elif x["rss_mb"] > prev_rss + 300 and x["rss_mb"] > 500:
             out.append({"family": "PA", "mode": "hostile", "bytes": hx(b), "corresponds": True, "impl": x, "model": [],
                         "property_violation": {"what": f"peak RSS grew to {x['rss_mb']} MB on a {len(b)}-byte input"}, "signature": {}})
+        prev_rss = max(prev_rss, x["rss_mb"])
         if any(v.startswith("ok") and int(v.split(":")[1]) > 0 for v in x["outcomes"].values()):
             ctx.report.nontrivial.add(hx(b))
         ctx.report.count("C17/outcome/" + "/".join(sorted(set(v.split(":")[0] for v in x["outcomes"].values()))))
